@@ -42,6 +42,11 @@
      "tailappend"     Server._write re-queues the unsent rest of a partially
                       accepted chunk at the tail of the connection's queue [C15-5]
      "shortread"      file_generator takes a short read for end-of-file    [C15-4]
+     "unsized205"     prepare() gives a 205 without Content-Length neither chunked
+                      coding nor close (as for 204/304), but its body is written
+     "bodiless205"    ... and a sized 205 (and 304) gets no Content-Length either  [C15-9]
+     "lenclose"       the end of a stream that is not chunked always closes the
+                      connection, also when the application set a Content-Length  [C15-8]
      "stream_sized"   response.stream = True with a non-empty str/bytes/list body
                       raises in _on_response and the error handling never ends
                       (intended: the body is the first data of a stream the
@@ -71,10 +76,12 @@ VARIABLES dv,      \* defect set of this behaviour
 vars == <<dv, open, stale, k, P, bad, hist, out>>
 
 AllDefects == {"head_noclose", "bodiless_body", "push_cl", "empty_chunk", "chunk_noterm", "stream_sized",
-               "listwish", "casewish", "tailappend", "shortread"}
+               "listwish", "casewish", "tailappend", "shortread", "unsized205", "lenclose", "bodiless205"}
 
-IterBodies == {"gen", "genWithEmpty", "genEmptyMid", "genAllEmpty", "genBig", "file", "trickle"}    \* response.body is an iterator
+IterBodies == {"gen", "genWithEmpty", "genEmptyMid", "genAllEmpty", "genBig", "file", "fileCL", "trickle"}    \* response.body is an iterator
 
+RareStatuses == {203, 205, 206, 300}     \* unusual 2xx/3xx: on the bodies below only
+RareBodies   == {"empty", "str", "bytes", "list", "gen", "fileCL"}
 SpellBodies == {"str", "gen"}          \* non-canonical spellings and partial accepts are combined with a
 WinBodies   == {"str", "big", "gen", "genWithEmpty", "genBig", "file", "trickle", "stream", "yield"}   \* sub-product
 
@@ -85,7 +92,8 @@ Cfgs ==
   LET core  == {c \in [proto: Protos, method: Methods, conn: Conns, status: Statuses, body: Bodies, stream: Flags,
                        spell: {"canon"} \cap Spells, win: {0} \cap Wins] :
                   /\ c.body = "stream" => c.stream                   \* a pushed stream is response.stream = True by definition
-                  /\ c.body = "error" => c.status \notin {200, 201}} \* httperror() is for error statuses
+                  /\ c.body = "error" => c.status \notin {200, 201, 203, 205, 206, 300}  \* httperror() is for error statuses
+                  /\ c.status \in RareStatuses => c.body \in RareBodies /\ ~c.stream}
       spelt == [proto: Protos, method: Methods, conn: Conns \ {"none"}, status: {200} \cap Statuses,
                 body: SpellBodies \cap Bodies, stream: {FALSE} \cap Flags, spell: Spells \ {"canon"}, win: {0} \cap Wins]
       windw == {c \in [proto: Protos, method: Methods, conn: Conns, status: {200} \cap Statuses,
@@ -105,7 +113,7 @@ ExpLen(c) ==
     [] c.body = "big" -> 160000
     [] c.body = "gen" -> 30
     [] c.body \in {"genWithEmpty", "genEmptyMid"} -> 3
-    [] c.body \in {"file", "trickle"} -> 10240
+    [] c.body \in {"file", "fileCL", "trickle"} -> 10240
     [] c.body = "genBig" -> 210000
     [] c.body = "stream" -> 37
     [] c.body = "yield" -> 13
@@ -117,7 +125,7 @@ EffWish(c, Defects) ==
      \/ (c.spell = "list" /\ "listwish" \in Defects)
   THEN "none" ELSE c.conn
 WantsKeepAlive(c, Defects) == LET w == EffWish(c, Defects) IN w = "keepalive" \/ (w = "none" /\ c.proto = 11)
-IsStream(c)  == c.stream \/ c.body \in {"file", "trickle"}    \* Body.__set__ turns stream on for objects with read()
+IsStream(c)  == c.stream \/ c.body \in {"file", "fileCL", "trickle"}    \* Body.__set__ turns stream on for objects with read()
 IsIter(c)    == c.body \in IterBodies
 ListLen(c)   == IF c.body = "stream" THEN 0 ELSE ExpLen(c)     \* bytes in response.body when it is a list
 Pushed(c)    == IsStream(c) /\ ~IsIter(c) /\ ListLen(c) = 0    \* completed by stream(res, ..), stream(res, None)
@@ -127,19 +135,25 @@ Pieces(c) ==
   CASE c.body = "gen" -> <<6, 6, 18>>
     [] c.body \in {"genWithEmpty", "genEmptyMid"} -> <<1, 2>>
     [] c.body = "genBig" -> <<70000, 70000, 70000>>
-    [] c.body = "file" -> <<4096, 4096, 2048>>
+    [] c.body \in {"file", "fileCL"} -> <<4096, 4096, 2048>>
     [] c.body = "trickle" -> <<1000, 1, 4096, 1, 37, 4096, 1009>>     \* read(4096) returns these: short reads
     [] c.body = "stream" -> <<8, 9, 20>>
     [] OTHER -> IF ExpLen(c) > 0 THEN <<ExpLen(c)>> ELSE <<>>
 
 (* Response.prepare(): [hascl, cl, chunked, close] *)
 Prepare(c, em, Defects) ==
-  LET sized   == ~IsIter(c) /\ ("push_cl" \in Defects \/ ~IsStream(c))
-      hascl   == sized /\ ("bodiless_body" \in Defects \/ c.status # 204)
+  LET appcl   == c.body = "fileCL"          \* the handler set Content-Length itself (as tools.serve_file does)
+      sized   == ~IsIter(c) /\ ("push_cl" \in Defects \/ ~IsStream(c))
+      nocl    == \/ (c.status = 204 /\ "bodiless_body" \notin Defects)
+                 \/ (c.status \in {205, 304} /\ "bodiless205" \in Defects)
+      hascl   == appcl \/ (sized /\ ~nocl)
+      noframe == \/ NoBodyStatus(c.status)      \* "needs neither chunked nor close"
+                 \/ (c.status = 205 /\ ("unsized205" \in Defects \/ "bodiless205" \in Defects))
       close0  == ~WantsKeepAlive(c, Defects) \/ c.body = "error"
-      chunked == ~hascl /\ ~NoBodyStatus(c.status) /\ c.proto = 11 /\ em # "HEAD"
-      close   == close0 \/ (~hascl /\ ~NoBodyStatus(c.status) /\ ~chunked)
-  IN [hascl |-> hascl, cl |-> IF hascl THEN ListLen(c) ELSE -1, chunked |-> chunked, close |-> close]
+      chunked == ~hascl /\ ~noframe /\ c.proto = 11 /\ em # "HEAD"
+      close   == close0 \/ (~hascl /\ ~noframe /\ ~chunked)
+  IN [hascl |-> hascl, cl |-> IF appcl THEN ExpLen(c) ELSE IF hascl THEN ListLen(c) ELSE -1,
+      chunked |-> chunked, close |-> close]
 
 Outcome(c, p, parse, bodylen, extra, closed, bodyeq) ==
   [parse |-> parse, ostatus |-> IF parse = "ok" THEN c.status ELSE 0, over |-> IF parse = "ok" THEN c.proto ELSE 0,
@@ -175,6 +189,8 @@ Respond(c, em, Defects) ==
     [o |-> Outcome(c, p, "incomplete", 0, 0, p.close, FALSE), stale |-> FALSE]
   ELSE IF "shortread" \in Defects /\ c.body = "trickle" THEN     \* stops after the first short read
     [o |-> Outcome(c, p, "ok", Pieces(c)[1], 0, p.close, FALSE), stale |-> FALSE]
+  ELSE IF "lenclose" \in Defects /\ IsStream(c) /\ ~p.chunked THEN   \* _on_stream(None): not chunked => close
+    [o |-> Outcome(c, p, "ok", n, 0, TRUE, TRUE), stale |-> FALSE]
   ELSE [o |-> Outcome(c, p, "ok", n, 0, p.close, TRUE), stale |-> FALSE]
 
 (* --- the write path (circuits.net.sockets.Server.write / _on_write / _write) ---
